@@ -10,11 +10,13 @@ discr/*      DiscretizedSpace._inner/_norm/_dist on non-uniformly weighted (node
 axioms/*     consequences of the closed form (T): conjugate symmetry, linearity in the first argument,
              norm^2 = inner(x, x), dist(x, y) = norm(x - y) symmetric - discharged from the sum axioms.
 """
+import numpy as np
 import z3
 
 from pyvc import core, interp as ip, odlmodel as om, npmodel as npm
 from pyvc.core import S, C, V, VVar, VConst, VLin, VPw, Unsupported, s_if, s_and, s_or, s_not
 from pyvc.harness import Unit
+from pyvc.objnp import ONd
 from contracts import lib
 
 NPT = 'odl.space.npy_tensors:'
@@ -350,6 +352,148 @@ def unit_discr_methods(meth, ndim):
     return Unit('discr/%s/%dd' % (meth, ndim), run, funcs=[DS + 'DiscretizedSpace.' + meth], config={'method': meth, 'ndim': ndim}, bounded_in='ndim = %d' % ndim)
 
 
+PSPACE = 'odl.space.pspace:'
+
+
+def unit_pspace_weighting(kind, field, exponent, k=2):
+    """ProductSpaceArrayWeighting / ProductSpaceConstWeighting on k components known only through their own inner product / norm (g_i = <x_i, y_i>,
+    arbitrary complex numbers for a complex space; n_i = ||x_i|| >= 0): inner == sum_i w_i g_i (linear, NOT conjugated, in the component inner
+    products), norm == sqrt(Re inner(x, x)) for p = 2, sum_i w_i n_i for p = 1, max_i w_i n_i for p = inf (documented), dist likewise."""
+    def run(ctx):
+        I = ctx.I
+        cls = I.get_class(PSPACE + ('ProductSpaceArrayWeighting' if kind == 'array' else 'ProductSpaceConstWeighting'))
+        meths = (['inner', 'norm'] if exponent == 2.0 else ['norm']) + (['dist'] if kind == 'const' else [])
+        for meth in meths:
+            def path(st, meth=meth):
+                st.object_arrays = True
+                fr = ip.Frame(st)
+                dt = npm.DT('complex128' if field == 'complex' else 'float64')
+                if kind == 'array':
+                    ws = [S(z3.Real('w%d' % i)) for i in range(k)]
+                    for w in ws:
+                        st.assume(w > 0)
+                    warr = np.empty(k, dtype=object)
+                    for i, w in enumerate(ws):
+                        warr[i] = w
+                    wobj = ip.Obj(cls)
+                    wobj.fields.update({'_ArrayWeighting__array': ONd(warr), '_Weighting__exponent': exponent, '_Weighting__impl': 'numpy'})
+                else:
+                    c = S(z3.Real('c'))
+                    st.assume(c > 0)
+                    ws = [c] * k
+                    wobj = ip.Obj(cls)
+                    wobj.fields.update({'_ConstWeighting__const': c, '_Weighting__exponent': exponent, '_Weighting__impl': 'numpy'})
+                gram = {}
+
+                def g(a, b):
+                    """<a_i, b_i> of the component space: an arbitrary sesquilinear value per (vector, vector, component)"""
+                    key = (a.name, b.name, a.i)
+                    if key not in gram:
+                        re = S(z3.Real('g_%s%s%d.re' % key))
+                        if field == 'complex' and a.name != b.name:
+                            gram[key] = C(re, S(z3.Real('g_%s%s%d.im' % key)))
+                            gram[(b.name, a.name, a.i)] = gram[key].conjugate()
+                        else:
+                            if a.name == b.name:
+                                st.assume(re >= 0)
+                            gram[key] = C(re, core.S.lift(0.0)) if field == 'complex' else re
+                            gram[(b.name, a.name, a.i)] = gram[key]
+                    return gram[key]
+
+                class SpaceStub(object):
+                    def pv_getattr(self, I_, fr_, name):
+                        if name == 'dtype':
+                            return dt
+                        if name == 'field':
+                            return om.field_obj(I_, field)
+                        raise Unsupported('component space .%s' % name)
+
+                class Comp(object):
+                    def __init__(self, name, i):
+                        self.name, self.i = name, i
+
+                    def pv_getattr(self, I_, fr_, name):
+                        if name == 'inner':
+                            return ip.Builtin('inner', lambda I2, fr2, a, kw: g(self, a[0]))
+                        if name == 'norm':
+                            def nrm(I2, fr2, a, kw):
+                                v = g(self, self)
+                                return core.ssqrt(v.re if isinstance(v, C) else v)
+                            return ip.Builtin('norm', nrm)
+                        if name == 'dtype':
+                            return dt
+                        if name == 'space':
+                            return SpaceStub()
+                        raise Unsupported('component .%s' % name)
+
+                    def pv_binop(self, I_, fr_, opname, other):
+                        if opname == '__sub__' and isinstance(other, Comp):
+                            return Comp('(%s-%s)' % (self.name, other.name), self.i)
+                        return ip.NOTIMPL
+
+                class PVec(object):
+                    def __init__(self, name):
+                        self.comps = [Comp(name, i) for i in range(k)]
+
+                    def pv_iter(self, I_, fr_):
+                        return iter(self.comps)
+
+                    def pv_getitem(self, I_, fr_, idx):
+                        return self.comps[int(idx)]
+
+                    def pv_len(self, I_, fr_):
+                        return k
+
+                    def pv_getattr(self, I_, fr_, name):
+                        if name == 'space':
+                            return SpaceStub()
+                        raise Unsupported('product space element .%s' % name)
+                x, y = PVec('x'), PVec('y')
+                args = [x, y] if meth in ('inner', 'dist') else [x]
+                try:
+                    r = I.call(I._getattr(wobj, meth, fr), args, {}, fr)
+                except ip.PyRaise as e:
+                    return ('raise', e.exc)
+                return ('ok', dict(r=r, ws=ws, g=g, x=x, y=y, Comp=Comp))
+            info = {'weighting': kind, 'field': field, 'exponent': exponent, 'method': meth, 'components': k}
+            for st, (status, r) in ctx.explore(path):
+                if status == 'raise':
+                    ctx.fail(st, 'no_raise', '%s raises %s' % (meth, lib.exc_desc(r)), info)
+                    continue
+                ws, g, x, y = r['ws'], r['g'], r['x'], r['y']
+                got = r['r']
+                if meth == 'inner':
+                    want = None
+                    for i in range(k):
+                        t = g(x.comps[i], y.comps[i]) * ws[i]
+                        want = t if want is None else want + t
+                    ctx.prove(st, 'inner == sum_i w_i <x_i, y_i>  (real and imaginary part; linear in the component inner products)', core.sc_eq(got, want), info)
+                    continue
+                if meth == 'norm':
+                    ns2 = [g(c, c) for c in x.comps]
+                else:
+                    ns2 = [g(r['Comp']('(x-y)', i), r['Comp']('(x-y)', i)) for i in range(k)]
+                ns2 = [v.re if isinstance(v, C) else v for v in ns2]
+                got = core.S.lift(got)
+                if exponent == 2.0:
+                    tot = None
+                    for i in range(k):
+                        tot = ns2[i] * ws[i] if tot is None else tot + ns2[i] * ws[i]
+                    ctx.prove(st, '%s >= 0 and %s^2 == sum_i w_i ||.||_i^2' % (meth, meth), core.s_and(got >= 0, core.sbool(core.sc_eq(got * got, tot))), info)
+                elif exponent == 1.0:
+                    tot = None
+                    for i in range(k):
+                        n_i = core.ssqrt(ns2[i])
+                        tot = n_i * ws[i] if tot is None else tot + n_i * ws[i]
+                    ctx.prove(st, '%s == sum_i w_i ||.||_i' % meth, core.sc_eq(got, tot), info)
+                else:
+                    terms = [core.ssqrt(ns2[i]) * ws[i] for i in range(k)]
+                    ctx.prove(st, '%s == max_i w_i ||.||_i  (upper bound attained)' % meth,
+                              core.s_and(*([got >= t for t in terms] + [core.s_or(*[core.sbool(core.sc_eq(got, t)) for t in terms])])), info)
+    return Unit('pspace-weighting/%s/%s/p=%s' % (kind, field, exponent), run, funcs=[PSPACE + ('ProductSpaceArrayWeighting' if kind == 'array' else 'ProductSpaceConstWeighting') + '.' + m for m in ('inner', 'norm')],
+                config={'weighting': kind, 'field': field, 'exponent': exponent, 'components': k})
+
+
 def unit_canary():
     """must-fail: inner product claimed to conjugate the FIRST argument"""
     def run(ctx):
@@ -382,6 +526,11 @@ def units(tier, seed):
             us.append(unit_boundary(ndim, p))
         for meth in ('_inner', '_norm', '_dist'):
             us.append(unit_discr_methods(meth, ndim))
+    for kind in ('array', 'const'):
+        for field in ('real', 'complex'):
+            for p in (2.0, 1.0, float('inf')):
+                us.append(unit_pspace_weighting(kind, field, p))
+    us.append(unit_pspace_weighting('array', 'complex', 2.0, k=3))
     us.append(unit_canary())
     return us
 
